@@ -7,6 +7,7 @@ from .runner import hyp_run
 
 PROP = "C07"
 LEVEL = "exploration"
+EVALUATION_COUNTER = "applications"
 RULE = (
     "G-tree trees x all 11 rule instances x every applicable node (applied on a clone_from_root copy); oracle: "
     "link/arity/aliasing audit of the result, every subtree hanging off the path root->parent of the rewritten "
